@@ -449,11 +449,26 @@ def selection_traces(R, tier):
                                 SequentialEvaluator().evaluate(other, inds)
                                 list(TournamentSelection(2, with_replacement=True).apply(other, SequentialEvaluator(), rep,
                                                                                           NativeRandomSource(3), list(inds), 3, 1))
+                                kf = Individual.key_function(other)      # ... every one of them has been ranked for it
+                                for x in inds:
+                                    kf(x)
+                                del kf
+                                old_id = 0
                                 if len(vals) % 2 == 0:
+                                    old_id = id(other)
                                     other = None
                                     import gc
                                     gc.collect()
                             problem = SingleObjectiveProblem(lambda p: float(p.v), minimize=minimise)
+                            if pre and old_id:
+                                # allocate until the new problem sits where the dropped one was (usually at once)
+                                spare = []
+                                for _ in range(64):
+                                    if id(problem) == old_id:
+                                        break
+                                    spare.append(problem)
+                                    problem = SingleObjectiveProblem(lambda p: float(p.v), minimize=minimise)
+                                del spare
                             ev_.evaluate(problem, inds)
                             popr = [ind_rec(ids, x, problem) for x in inds]
                             log = ChoiceLog(src, events, ids, problem)
